@@ -83,6 +83,41 @@ CHECKS = {
              "and warping path routines; TLC judges all of them against the specification with PD = (squared) "
              "Euclidean distance between the vectors.",
         note="Trusted: TLC, exact-domain encoding. Known finding C11-psi-end-backtrack (same as C05)."),
+    "C06": dict(
+        level="model_checking", design="DESIGN.md 4/C06",
+        technique="TLA+ DistMatrix (Pairs vs four transcribed index plans) model-checked over the complete block space; recorded results trace-validated by TLC (DMTrace)",
+        text="Act M proves for EVERY block with n <= 6 (8 thorough) that the Python length, the C length, the serial loop "
+             "order, the OpenMP row plan and distance_array_index agree with the declarative row-major Pairs. The same "
+             "complete block space (n <= 5/6) is then executed on the real code: three length functions, the index "
+             "list, the compact result through 6-9 routes (Python, C serial, Cython, direct dtw_distances_* calls; list, "
+             "2-D and 3-D array containers; ndim 1-2), square forms (mirrored / only_triu) and distance_array_index, "
+             "and TLC judges layout and every value (values from DTWCore).",
+        note="Trusted: TLC, exact-domain encoding, ctypes layouts."),
+    "C07": dict(
+        level="model_checking", design="DESIGN.md 4/C07",
+        technique="TLA+ ParallelDM: all interleavings of the row-parallel loop with SharedVars derived from the pragma in /repo's source; real parallel runs trace-validated against the serial layout",
+        text="TLC explores every interleaving of T threads grabbing rows in any order (subsumes static/dynamic/guided, any "
+             "chunk), one step per assignment, for every block (n <= 4, T <= 3): InBounds, NoDoubleWrite and "
+             "SerialEquivalent. The set of shared loop scalars is parsed from each of the six functions' pragma and "
+             "declarations, so dropping a variable from private(...) makes TLC exhibit the lost update (self-test: "
+             "'c shared' must be refuted). Real executions: complete block space through the OpenMP extension and "
+             "direct *_parallel calls with 3-7 thread counts up to 64, the real dtw_distances_prepare plan, and the "
+             "multiprocessing branches with pools whose tasks complete in seeded random orders (plus a real Pool); "
+             "all outputs judged element for element against the serial layout and the specification.",
+        note="Trusted: TLC; the source scan that derives SharedVars (regex over pragma/declarations; unknown shapes fail "
+             "closed); re-entrancy of dtw_distance (no static state) is an assumption bound by the real runs. Real-thread "
+             "runs sample schedules; exhaustiveness is in the model only."),
+    "C08": dict(
+        level="exploration", design="DESIGN.md 4/C08",
+        technique="TLA+ Compact layout model gives the buffer-size contract; exhaustive small configuration space replayed under gcc ASan+UBSan with exact-size malloc'ed caller buffers",
+        text="TLC proves for all (l1,l2) <= 8x8 (12x12) and all windows that the compact layout keeps every in-band cell "
+             "inside the advertised buffer and that each region's recurrence reads predecessor/border/filler slots. The "
+             "code is then run under ASan+UBSan (library compiled from /repo's C sources) over all (l1,l2) <= 5x5 (7x7), "
+             "all windows, psi 4-tuples (degenerate included), options on/off, ndim 1-3, every block for n <= 4 (5), DBA "
+             "masks across the byte boundary and the affinity routines, with caller buffers of exactly the documented "
+             "sizes. TLC cannot observe memory: the sanitizer is the monitor, hence level exploration.",
+        note="Trusted: gcc 12 ASan/UBSan runtime; buffer sizes taken from the documented functions "
+             "(dtw_settings_wps_length, dtw_distances_length). Known finding: dtw_expand_wps_slice on sub-ranges."),
 }
 
 NOT_YET = {
